@@ -47,6 +47,7 @@ CLAUSES = {
     "inv.on_unfinished_object": {"C03"},
     "inv.unexpected_evaluation": {"C03"},
     "inv.body_after_failed_before": {"C03"},
+    "inv.evaluated_after_body_raise": {"C03", "C11"},
     "err.form_dispatch": {"C09"},
     "err.factory_calls": {"C09"},
     "err.factory_seen": {"C09"},
@@ -58,6 +59,7 @@ CLAUSES = {
     "ip.marker_lost_before_exit": {"C11", "C10"},
     "ip.view_differs": {"C11", "C10"},
     "exc.dropped": {"C11"},
+    "exc.swallowed_by_check": {"C11", "C16"},
     "exc.wrapped_without_cause": {"C11"},
     "exc.replaced": {"C11"},
     "ip.foreign_marker_visible": {"C12", "C10"},   # a call that is not re-entrant in its own flow went unchecked
@@ -222,12 +224,18 @@ def name_clause(diag: dict, prog: dict) -> str:
             return "exc.dropped"
         if ae == "cond.in":
             if a_role == "pre":
+                if exp[CLS] not in ("ret",) + VIOLATION_CLS and exp[CLS] != "TypeError":
+                    # an exception raised by a condition was to reach the caller; instead further conditions are tried
+                    return "exc.swallowed_by_check"
                 return ctx("pre.evaluated_after_first_falsy")
             if a_role == "post":
                 if exp[CLS] not in ("ret",) + VIOLATION_CLS:
                     return "post.evaluated_after_body_raise"
                 return ctx("post.order")
             if a_role == "inv":
+                if exp[CLS] not in ("ret",) + VIOLATION_CLS:
+                    # an exception of user code was to reach the caller; instead invariants are evaluated while it unwinds
+                    return "inv.evaluated_after_body_raise"
                 return ctx("inv.unexpected_evaluation")
     if ee in ("susp", "res", "throw") or ae in ("susp", "res", "throw"):
         return "async.diverges_from_sync"
